@@ -104,7 +104,7 @@ def gen_job(verif_seed, tier, index):
     if g.random() < 0.1:
         ff, rg = ffgen.gen_ff_linktype(g)
     else:
-        ff = ffgen.gen_ff(g)
+        ff = ffgen.gen_ff(g, uniform_nrexcl=g.random() < 0.6)
         rg = ffgen.gen_resgraph(g, ff)
     base = histgen.make_op(ff, rg, g, graph_kind="json")
     members.append({"dim": "base", "hashseed": 0, "ops": [base], "observe": 0})
@@ -152,6 +152,16 @@ def gen_job(verif_seed, tier, index):
         if rg2.get("from_itp"):
             members.append({"dim": "history", "hashseed": e.choice(histgen.PALETTE),
                             "ops": [histgen.make_op(ff2, rg2, g, out="h.itp", graph_kind="json"), base], "observe": 1})
+    if g.random() < 0.4:
+        # earlier call whose input files had the SAME paths and modification times but other content (the calls of
+        # this history share one input directory; time stamps preserved as by cp -p)
+        ff2 = ffgen.gen_ff(g)
+        ff2["same_names"] = ff.get("same_names")
+        rg2 = ffgen.gen_resgraph(g, ff2)
+        early = histgen.make_op(ff2, rg2, g, out="h.itp")
+        early["shared_inputs"] = True
+        members.append({"dim": "history", "hashseed": e.choice(histgen.PALETTE),
+                        "ops": [early, dict(base, shared_inputs=True)], "observe": 1, "shared_inputs": True})
     # history
     for _ in range(g.randint(1, 2)):
         hist = _history(g, ff, rg)
